@@ -88,7 +88,7 @@ def get_path(ctx, progs, maxsteps):
     res = []
     for p, o in zip(progs, outs):
         if is_crash(o) or not o.startswith('VM '):
-            res.append(None)
+            res.append(('crash', o))
             continue
         st = [parse_dump(x) for x in o[3:].split('|')]
         init = {'ip': '0', 'data': '-', 'stk': '-'}
@@ -269,8 +269,12 @@ def debugger_suite(ctx, n_random, hist_len, exhaustive_len, big=False):
     paths = get_path(ctx, [c['prog'] for c in allc], 700)
     keep = []
     for c, p in zip(allc, paths):
-        if p is None:
-            ctx.stage_broken('VM path run crashed', c['text'][:300], c['text'])
+        if isinstance(p, tuple):
+            msg = p[1]
+            if 'signed integer overflow' in msg or 'cannot be represented' in msg:
+                ctx.violation('vm-arith-ub', 'undefined arithmetic in the VM during an uninterrupted run: ' + msg[:300], {'source': c['text'], 'history': ['s'] * 700})
+            else:
+                ctx.violation('vm-crash', 'the VM crashed / timed out during an uninterrupted run (single steps): ' + msg[:300], {'source': c['text'], 'history': ['s'] * 700})
             continue
         c['path'] = p
         keep.append(c)
@@ -481,7 +485,9 @@ def check_vm_property(ctx):
             if not is_crash(o) and fields(o).get('ok') == '1':
                 c = {'defs': None, 'text': src, 'prog': Prog(fields(o))}
                 c['path'] = get_path(ctx, [c['prog']], 1500)[0]
-                if c['path']:
+                if isinstance(c['path'], tuple):
+                    ctx.violation('vm-crash', 'the VM crashed during calls inside a long-running loop: ' + c['path'][1][:300], {'source': src, 'history': ['s'] * 1500})
+                elif c['path']:
                     jobs.append((c, ['s'] * 1200))
                     jobs.append((c, ['t1'] + ['e'] * 150))
     if pid == 'C20':
@@ -493,8 +499,8 @@ def check_vm_property(ctx):
             if not is_crash(o) and fields(o).get('ok') == '1':
                 c = {'defs': None, 'text': src, 'prog': Prog(fields(o))}
                 pth = get_path(ctx, [c['prog']], 300)[0]
-                if pth is None:
-                    ctx.violation('vm-arith-ub', 'the VM crashed on an addition near 2^31 (see harness stderr)', {'source': src, 'history': ['s'] * 40})
+                if isinstance(pth, tuple):
+                    ctx.violation('vm-arith-ub', 'the VM crashed on an addition near 2^31: ' + pth[1][:300], {'source': src, 'history': ['s'] * 40})
                     continue
                 c['path'] = pth
                 jobs.append((c, ['s'] * 200))
